@@ -29,7 +29,7 @@ def run(ref):
     tmp = tempfile.mkdtemp(prefix='refchk-')
     try:
         subprocess.run('git -C /repo archive HEAD | tar -x -C ' + tmp, shell=True, check=True)
-        a = subprocess.run(['patch', '-p1', '-s', '-i', ref], cwd=tmp, capture_output=True, text=True)
+        a = subprocess.run(['patch', '-p1', '-s', '-f', '-i', ref], cwd=tmp, capture_output=True, text=True, stdin=subprocess.DEVNULL)
         if a.returncode != 0:
             return (name, 'PATCH-FAILS', [])
         b = subprocess.run(['go', 'build', './...'], cwd=tmp, capture_output=True, text=True, env=env)
